@@ -76,8 +76,16 @@ def format_emboss_parse_tree(parse_tree, config, used_productions=None):
             return lambda _, *args: handler(*(args + (config,)))
 
         formatters[production] = wrapped_handler(handler)
+    def token_text(token):
+        # Documentation and Comment tokens run to the end of the line, so they are
+        # the only tokens that can carry trailing whitespace.  It is dropped here,
+        # before column widths are computed, so that formatting is idempotent.
+        if token.symbol in ("Documentation", "Comment"):
+            return token.text.rstrip()
+        return token.text
+
     return parser_util.transform_parse_tree(
-        parse_tree, lambda n: n.text, formatters, used_productions
+        parse_tree, token_text, formatters, used_productions
     )
 
 
